@@ -58,6 +58,7 @@ Definition outer_invocations (l : list lentry) : list obs :=
   flat_map (fun e => match e with
                      | LInvoke o => if o_forvalue o then [] else [o]
                      | LValue _ _ => []
+                     | LParsed _ _ => []
                      end) l.
 
 (* what the handler must see: the decoded payload field by field, the subject's
@@ -76,3 +77,6 @@ Definition req_ctx (m : msg) (mh : hmatch) (rt rn me : bytes) (d : reqdata) : ct
   Ctx (ms_reply m) rt rn me (m_h mh) (m_params mh) (m_group mh) d.
 Definition is_internal_error (p : payload) : Prop :=
   exists msg d m, p = PError code_internal msg d m.
+
+(* the raw value ParseToken (true) / ParseParams (false) decodes *)
+Definition raw_of (c : ctx) (tk : bool) : bytes := if tk then q_token (c_d c) else q_params (c_d c).
